@@ -7,6 +7,7 @@ export CARGO_NET_OFFLINE=true
 python3 tools/genlake.py
 [ -f srcfacts/gen.py ] && python3 srcfacts/gen.py all
 cp /repo/Cargo.lock harness/core/Cargo.lock 2>/dev/null
+[ -d harness/http ] && cp /repo/Cargo.lock harness/http/Cargo.lock 2>/dev/null
 (cd lean && lake build)
 for f in props/C*.json; do
   id=$(basename "$f" .json)
@@ -14,10 +15,13 @@ for f in props/C*.json; do
 import json,sys
 c=json.load(open(sys.argv[1]))
 print(" ".join(sorted({r["driver"] for r in c["runs"]})))
-print(" ".join(sorted({r["bin"] for r in c["runs"]})))
+print(" ".join(sorted({r["bin"] for r in c["runs"] if r.get("crate") in (None, "core")})))
+print(" ".join(sorted({r["crate"] + "/" + r["bin"] for r in c["runs"] if r.get("crate") not in (None, "core")})))
 PY
-  drivers=$(sed -n 1p work_targets.$$); bins=$(sed -n 2p work_targets.$$); rm -f work_targets.$$
+  drivers=$(sed -n 1p work_targets.$$); bins=$(sed -n 2p work_targets.$$); xbins=$(sed -n 3p work_targets.$$); rm -f work_targets.$$
   (cd lean && lake build AGV.Props.$id $drivers) || echo "setup: lean targets of $id failed"
   for b in $bins; do (cd harness/core && cargo build --offline --bin $b) || echo "setup: harness bin $b failed"; done
+  # run entries with "crate": "<name>" are built in harness/<name> (C35: harness/http)
+  for cb in $xbins; do (cd "harness/${cb%%/*}" && cargo build --offline --bin "${cb#*/}") || echo "setup: harness bin $cb failed"; done
 done
 exit 0
